@@ -182,6 +182,9 @@ def replay(m, n, sy, pos, **kw):
     fn = getattr(transitions, name.split("-")[0])
     terms, trans = fn(tree)
     seq = [str(t) for t in trans]
+    terms2, trans2 = fn(tree)
+    if [str(t) for t in trans2] != seq or terms2 != terms or len(seq) != len([str(t) for t in trans]):
+        return "%s: a second call on the same tree gives %s, the first gave %s" % (name, " ".join(str(t) for t in trans2), " ".join(seq))
     got = {"gap": rp_gap, "topdown": rp_topdown, "inorder": rp_inorder, "inorder-nary": rp_inorder}[name](seq, n)
     if isinstance(got, str):
         return "%s: replay fails: %s -- %s" % (name, got, " ".join(seq))
